@@ -2,6 +2,7 @@ package main
 
 import (
 	"fmt"
+	"os"
 	"runtime"
 	"strings"
 	"sync"
@@ -101,6 +102,10 @@ func runC14(c *Ctx) {
 		}
 		mk(fmt.Sprintf("fast-%d", i), n, evs, false)
 	}
+	// a PONG that happens to carry a pending request's message id, then the request's reply
+	for i := 0; i < c.Budget(3, 20); i++ {
+		mk(fmt.Sprintf("pong-%d", i), 2, []string{"H1", "r1", "r2"}, true)
+	}
 	// the timeout batch: some replies never come (20 s RpcRequestTimeout, all cases in parallel),
 	// late replies arrive after the callers gave up, once and twice
 	nSlow := c.Budget(12, 60)
@@ -136,8 +141,16 @@ func runC14(c *Ctx) {
 	// ---- coordinator script: hold every GlobalStatus request of a case, remember its message id
 	var mu sync.Mutex
 	byXid := map[string]*c14Caller{}
+	asyncIDs := map[string]int32{}
 	coord.Script = func(s *FakeSession, kind string, m message.RpcMessage) Action {
 		if b, ok := m.Body.(message.GlobalStatusRequest); ok {
+			if strings.HasSuffix(b.Xid, "-async") {
+				// an asynchronous request that is never answered: its future must go away with the timeout
+				mu.Lock()
+				asyncIDs[strings.TrimSuffix(b.Xid, "-async")] = m.ID
+				mu.Unlock()
+				return Action{Drop: true}
+			}
 			mu.Lock()
 			cl := byXid[b.Xid]
 			mu.Unlock()
@@ -196,6 +209,12 @@ func runC14(c *Ctx) {
 		for _, cl := range k.callers {
 			<-cl.seen
 		}
+		if k.drops {
+			safeCall(func() {
+				sgetty.GetGettyRemotingClient().SendAsyncRequest(message.GlobalStatusRequest{
+					AbstractGlobalEndRequest: message.AbstractGlobalEndRequest{Xid: k.id + "-async"}})
+			})
+		}
 		waited := false
 		for _, e := range k.evs {
 			var idx int
@@ -225,6 +244,25 @@ func runC14(c *Ctx) {
 					AbstractBranchEndResponse: message.AbstractBranchEndResponse{AbstractTransactionResponse: okHead(), Xid: "x", BranchId: 1, BranchStatus: branch.BranchStatusPhasetwoCommitted}})
 			case 'h':
 				sgetty.GetGettyClientHandlerInstance().OnCron(s)
+			case 'H':
+				// a heart-beat whose PONG carries the same message id as caller idx's pending request (heart-beats
+				// are numbered by a counter of their own): it must not touch that request's future
+				cl := k.callers[idx-1]
+				last := int32(0)
+				for _, l := range coord.Snapshot() {
+					if _, ok := l.Msg.Body.(message.HeartBeatMessage); ok && l.Msg.ID > last {
+						last = l.Msg.ID
+					}
+				}
+				if last < cl.msgID && cl.msgID-last < 200000 {
+					for ; last < cl.msgID; last++ {
+						sgetty.GetGettyClientHandlerInstance().OnCron(s) // pings are not answered by the coordinator
+					}
+					s.Push(message.RpcMessage{ID: cl.msgID, Type: message.GettyRequestTypeHeartbeatResponse, Codec: byte(codec.CodecTypeSeata), Body: message.HeartBeatMessagePong})
+					c.Out.Count("pong.colliding-with-pending-request")
+				} else {
+					c.Out.Count("pong.collision-not-reachable")
+				}
 			}
 		}
 	}
@@ -247,13 +285,28 @@ func runC14(c *Ctx) {
 				residue++
 			}
 		}
+		mu.Lock()
+		aid, hasAsync := asyncIDs[k.id]
+		mu.Unlock()
+		if os.Getenv("VERIF_DEBUG") != "" {
+			fmt.Fprintf(os.Stderr, "DEBUG %s hasAsync=%v aid=%d present=%v\n", k.id, hasAsync, aid, hasAsync && sgetty.GetGettyRemotingClient().GetMessageFuture(aid) != nil)
+		}
+		if hasAsync {
+			// sent just after the synchronous requests: its timeout fires just after theirs
+			for w := 0; w < 100 && sgetty.GetGettyRemotingClient().GetMessageFuture(aid) != nil; w++ {
+				time.Sleep(20 * time.Millisecond)
+			}
+			if sgetty.GetGettyRemotingClient().GetMessageFuture(aid) != nil {
+				residue++
+			}
+		}
 		blocked := parkedInDelivery()
 		obs := fmt.Sprintf("%s residue=%d blocked=%d", strings.Join(parts, " "), residue, blocked)
 		sends := make([]string, k.n)
 		for i := range sends {
 			sends[i] = fmt.Sprintf("s%d", i+1)
 		}
-		c.Out.Case(k.id, "C14", fmt.Sprintf("sched %d %s %s", k.n, strings.Join(sends, " "), strings.Join(k.evs, " ")), obs)
+		c.Out.Case(k.id, "C14", fmt.Sprintf("sched %d %s %s", k.n, strings.Join(sends, " "), strings.ReplaceAll(strings.Join(k.evs, " "), "H", "h")), obs)
 		// oracle on the implementation alone
 		class, detail := "", ""
 		for _, cl := range k.callers {
@@ -352,6 +405,13 @@ func runC14(c *Ctx) {
 	}
 	coord.Script = func(s *FakeSession, kind string, m message.RpcMessage) Action {
 		if b, ok := m.Body.(message.GlobalStatusRequest); ok {
+			if strings.HasSuffix(b.Xid, "-async") {
+				// an asynchronous request that is never answered: its future must go away with the timeout
+				mu.Lock()
+				asyncIDs[strings.TrimSuffix(b.Xid, "-async")] = m.ID
+				mu.Unlock()
+				return Action{Drop: true}
+			}
 			mu.Lock()
 			cl := byXid[b.Xid]
 			mu.Unlock()
